@@ -393,6 +393,12 @@ func (f *refForest) refBlock(v *refView, maxDel, maxAdd int) *refBlockT {
 	b.proof = Proof{Targets: b.targets, Proof: v.proofHashes(b.tIdx)}
 	na := verifChoose("adds", 0, maxAdd)
 	for i := 0; i < na; i++ {
+		// readd=1: the first addition may be a leaf with the very hash of the first leaf this block deletes
+		// (live leaves stay pairwise distinct: the old one is gone when the new one arrives)
+		if i == 0 && len(b.delSlots) > 0 && verifParam("readd", 0) == 1 && verifChoose("readd", 0, 1) == 1 {
+			b.adds = append(b.adds, f.leaves[b.delSlots[0]].hash)
+			continue
+		}
 		h := verifLeafHash("add")
 		for j := range f.leaves {
 			if f.leaves[j].alive {
